@@ -12,6 +12,11 @@ Property theorems only; helper lemmas in `TLX/Lemmas/QuicSession*.lean`. Every s
 C03  `session_total`, `session_total_run` (no exception leaves `handle_packet` for packets the class constructors
      can build; `session_total_counterexample`: without that, a `ShortQuicPacket` typed VERSION_NEG does — an object
      the dissector never creates), `wrong_keys_export_nothing`.
+     Repair "only an authenticated QUIC packet moves the largest packet number of its space" (45c871e):
+     `failed_packet_leaves_pn_table` (∀ s p: not authenticated ⇒ both tables unchanged, only `check_key_epoch`'s fields can
+     differ, an exception was swallowed), `unauthenticated_step_leaves_pn_table`, `wrong_keys_leave_pn_tables`,
+     `damaged_packet_leaves_pn_table`; witness on the code before (`Session.Legacy`): `legacy_pn_poisoned`, and the same
+     two packets on the repaired code: `fixed_pn_not_poisoned` (both kernel-evaluated over the toy instance).
 C02  `key_epoch_tracks_sender`, `one_rtt_exact`, `handshake_levels_exact`, `cid_learning_*`, `direction_by_cid`,
      `new_connection_id_direction`, `retry_resets`.
 -/
